@@ -30,12 +30,12 @@ impl ProtocolVersion {
 //@end
 }
 //@arm iroh-relay/src/server/http_server.rs RelayServiceWithNotify::handle_relay_ws_upgrade name=server_choice stmt
-//@- let protocol_version =
+//@- let protocol_version = || let Some(protocol_version) = || let Ok(protocol_version) =
 //@| pub fn server_choice(subprotocols: &str) -> Result<ProtocolVersion, RelayUpgradeReqError>
 //@tail Ok(protocol_version)
 //@end
 //@arm iroh-relay/src/client.rs ClientBuilder::connect name=client_accept stmt
-//@- let protocol_version =
+//@- let protocol_version = || let Some(protocol_version) = || let Ok(protocol_version) =
 //@| pub fn client_accept(protocol_version_str: Option<&str>) -> Result<ProtocolVersion, ConnectError>
 //@tail Ok(protocol_version)
 //@end
